@@ -384,6 +384,10 @@ func handleCreatePermissionRequest(req Request, stunMsg *stun.Message) error {
 		return fmt.Errorf("%w %v:%v", errNoAllocationFound, req.SrcAddr, req.Conn.LocalAddr())
 	}
 
+	// The permissions are installed only once every peer address of the
+	// request has been accepted: a request answered with an error must not
+	// install or refresh anything.
+	var perms []*allocation.Permission
 	addCount := 0
 	errorCode := stun.CodeBadRequest
 
@@ -413,7 +417,7 @@ func handleCreatePermissionRequest(req Request, stunMsg *stun.Message) error {
 		req.Log.Debugf("Adding permission for %s", net.JoinHostPort(
 			peerAddress.IP.String(), strconv.Itoa(peerAddress.Port)))
 
-		alloc.AddPermission(allocation.NewPermission(
+		perms = append(perms, allocation.NewPermission(
 			&net.UDPAddr{
 				IP:   peerAddress.IP,
 				Port: peerAddress.Port,
@@ -426,6 +430,11 @@ func handleCreatePermissionRequest(req Request, stunMsg *stun.Message) error {
 		return nil
 	}); err != nil {
 		addCount = 0
+	}
+	if addCount > 0 {
+		for _, perm := range perms {
+			alloc.AddPermission(perm)
+		}
 	}
 
 	respClass := stun.ClassSuccessResponse
